@@ -923,7 +923,7 @@ def particle_status(
                 for elem in particle_list[i]
                 if (elem.status in status_list and not np.isnan(elem.status))
             ]
-        updated_particle_list.append(particle_list_tmp)
+            updated_particle_list.append(particle_list_tmp)
 
     particle_list = updated_particle_list
 
